@@ -26,7 +26,16 @@ func classify(r interface{}, o *Obs) {
 	case issue.Reported:
 		o.Class = "reported"
 		o.Code = string(e.Code())
-		o.Msg = clip(e.Error())
+		// an error that cannot be worded (Error() panics: 7d842f8) is no reported error for whoever prints it
+		func() {
+			defer func() {
+				if x := recover(); x != nil {
+					o.Class = "unwordable"
+					o.Msg = clip(fmt.Sprintf("issue %s: Error() panics: %v", o.Code, x))
+				}
+			}()
+			o.Msg = clip(e.Error())
+		}()
 		o.Line, o.Col = -1000000, -1000000
 		if o.Aux == nil {
 			o.Aux = map[string]string{}
@@ -40,6 +49,20 @@ func classify(r interface{}, o *Obs) {
 			if a := e.Argument(k); a != nil {
 				o.Aux[k] = clip(fmt.Sprint(a))
 			}
+		}
+		// PCORE_EQUALITY_REDEFINED: the ancestor that findEqualityDefiner walked to, by name
+		if a := e.Argument("including_parent"); a != nil {
+			o.Aux["including_parent"] = func() (nm string) {
+				defer func() {
+					if recover() != nil {
+						nm = "<fault>"
+					}
+				}()
+				if ot, ok := a.(px.ObjectType); ok {
+					return ot.Name()
+				}
+				return fmt.Sprintf("<%T>", a)
+			}()
 		}
 	case runtime.Error:
 		o.Class = "runtime"
